@@ -922,6 +922,13 @@ pub fn thread_jobs() -> Vec<Value> {
                           {"kind": "deconv", "filters": 5, "kernel": [2, 2], "stride": [1, 1], "padding": [0, 0], "act": "tanh"},
                           {"kind": "dense", "out": 2, "act": "linear", "bias": true}],
                "objective": {"kind": "mse"}, "optimizer": {"kind": "adam", "lr": 0.01}}),
+        // feature maps of 34 x 34 (rows and planes longer than any block a parallel loop would use)
+        json!({"name": "cnn-large-maps-sgdm", "ints": false, "input": [1, 34, 34], "out": 2,
+               "layers": [{"kind": "conv", "filters": 2, "kernel": [3, 3], "stride": [1, 1], "padding": [1, 1], "act": "tanh"},
+                          {"kind": "pool", "kernel": [2, 2], "stride": [2, 2]},
+                          {"kind": "deconv", "filters": 1, "kernel": [2, 2], "stride": [2, 2], "padding": [0, 0], "act": "tanh"},
+                          {"kind": "dense", "out": 2, "act": "linear", "bias": true}],
+               "objective": {"kind": "mse"}, "optimizer": {"kind": "sgdm", "lr": 0.001, "momentum": 0.5}}),
         // rows of 600 elements in the first dense layer (longer than any block a parallel reduction would use)
         json!({"name": "mlp-wide-input-adam", "ints": false, "input": [600], "out": 2,
                "layers": [{"kind": "dense", "out": 4, "act": "tanh", "bias": true},
@@ -1187,6 +1194,13 @@ pub fn replay_validate(case: &Value, rep: &mut Report, rng: &mut Rng) {
     match guarded(|| (g.validate(&gx, &gy, tol), g.predict_batch(&gx))) {
         Err(msg) => rep.mismatch("C12", "validate_or_predict_batch_panicked", &id, json!({"panic": msg, "arch": arch["name"]}), case),
         Ok(((loss, acc), batch)) => {
+            // evaluation leaves nothing behind: the same calls again (in the other order) give the same bits
+            if let Ok((batch2, (loss2, acc2))) = guarded(|| (g.predict_batch(&gx), g.validate(&gx, &gy, tol))) {
+                let same = batch2.len() == batch.len() && (0..batch.len()).all(|i| nets::tensor_bits(&batch2[i]) == nets::tensor_bits(&batch[i]));
+                if !same || loss2.to_bits() != loss.to_bits() || acc2.to_bits() != acc.to_bits() {
+                    rep.mismatch("C12", "evaluation_not_repeatable", &id, json!({"arch": arch["name"], "loss": [loss, loss2], "acc": [acc, acc2]}), case);
+                }
+            }
             let (cl, ca) = composed_validate(&g, &gobj, &gx, &gy, tol, last_softmax);
             if !close(loss, cl, 1e-6) || !close(acc, ca, 1e-6) {
                 rep.mismatch("C12", "generic_network_aggregation", &id, json!({"arch": arch["name"], "loss": [loss, cl], "acc": [acc, ca]}), case);
